@@ -581,3 +581,48 @@ Theorem message_from_text_run_total pctx text orps :
 Proof.
   apply message_from_text_total; [apply type_from_text_run_lib|]. intros c t st. apply per_type_run_le.
 Qed.
+
+(* ---------- the two token loops of the per-type text parsers terminate ---------- *)
+(* Inside dns.rdata.from_text / _TextReader the per-type parser runs under ExceptionWrapper(SyntaxError),
+   which would turn the model's fuel marker into a SyntaxError; so it is excluded here, at its only
+   sources on the text side besides Tokenizer.get itself (no_internal_tokenizer): the `while True`
+   loops of Tokenizer.get_remaining and Tokenizer.concatenate_remaining_identifiers. *)
+Lemma mz_lt_rem_fuel st : (mz st < T.rem_fuel st)%nat.
+Proof. unfold mz, T.rem_fuel, pend. destruct (T.ungot st) as [u|]; [destruct (T.ttype u =? T.tEOF)|]; lia. Qed.
+
+Lemma get_remaining_loop_nofuel : forall fuel st maxt acc, (mz st < fuel)%nat ->
+  T.get_remaining_loop fuel st maxt acc <> Internal T.tFuel.
+Proof.
+  induction fuel as [|f IH]; intros st maxt acc Hf; [lia|]. cbn [T.get_remaining_loop].
+  pose proof (fine_get st false false) as F. unfold T.get0.
+  destruct (T.get st false false) as [[t s1]|e|e] eqn:G; cbn [bind]; [|discriminate|contradiction].
+  apply get_mz in G as (_ & A & _ & C).
+  destruct (T.is_eol_or_eof t) eqn:Ee.
+  - unfold T.unget. destruct (T.ungot s1); cbn [bind]; discriminate.
+  - specialize (C (eof_is_eol t Ee)). destruct (negb (maxt =? 0) && _); [discriminate|]. apply IH. lia.
+Qed.
+
+Lemma cri_loop_nofuel : forall fuel st acc, (mz st < fuel)%nat -> T.cri_loop fuel st acc <> Internal T.tFuel.
+Proof.
+  induction fuel as [|f IH]; intros st acc Hf; [lia|]. cbn [T.cri_loop].
+  pose proof (fine_get_unescaped st) as F.
+  destruct (T.get_unescaped st) as [[t s1]|e|e] eqn:G; cbn [bind]; [|discriminate|contradiction].
+  apply get_unescaped_inv in G as (t0 & G & Ue). apply unescape_type in Ue.
+  apply get_mz in G as (_ & A & _ & C).
+  destruct (T.is_eol_or_eof t) eqn:Ee.
+  - unfold T.unget. destruct (T.ungot s1); cbn [bind]; discriminate.
+  - pose proof (eof_is_eol t Ee) as Hne. rewrite Ue in Hne. specialize (C Hne).
+    destruct (negb (T.is_identifier t)); [discriminate|]. apply IH. lia.
+Qed.
+
+Theorem text_loops_terminate st :
+  (forall maxt, T.get_remaining st maxt <> Internal T.tFuel) /\
+  (forall allow_empty, T.concatenate_remaining_identifiers st allow_empty <> Internal T.tFuel).
+Proof.
+  split.
+  - intros maxt. apply get_remaining_loop_nofuel, mz_lt_rem_fuel.
+  - intros b. unfold T.concatenate_remaining_identifiers.
+    pose proof (cri_loop_nofuel (T.rem_fuel st) st [] (mz_lt_rem_fuel st)) as H.
+    destruct (T.cri_loop _ _ _) as [r|e|e]; cbn [bind]; [destruct (negb _); discriminate|discriminate|].
+    intros X. apply H. exact X.
+Qed.
